@@ -49,3 +49,75 @@ func init() {
 		Explain:     "bounded symbolic model checking of slice()/computeSliceParams()/capSlice() against Python slicing semantics",
 	}
 }
+
+func evalJobs(prop string, ts []tmpl, depth, W, S int, keys []string) []*Job {
+	var out []*Job
+	for _, t := range ts {
+		j := t.job(prop, depth)
+		j.W, j.S, j.Keys = W, S, keys
+		j.WitEvery = 60
+		out = append(out, j)
+	}
+	return out
+}
+
+func evalBounds(tier string, fam string, n int, depth, W, S int, keys []string) map[string]interface{} {
+	return map[string]interface{}{"template_family": fam, "templates": n, "document_depth": depth, "max_array_length": W,
+		"max_string_bytes": S, "object_key_universe": keys, "integers_in_expression": "free 64-bit",
+		"numbers_in_document": "all finite float64", "loop_unwind_per_activation": 64}
+}
+
+func init() {
+	keysQ := []string{"a", "b", ""}
+	mk := func(prop string, fam func(string) []tmpl, famName string, dq, wq, dt, wt int, explain string, outside []string) {
+		specs[prop] = &CheckSpec{Prop: prop, Level: "model_checking",
+			Jobs: func(tier string) []*Job {
+				if tier == "thorough" {
+					return evalJobs(prop, fam(tier), dt, wt, 2, append(keysQ, "é"))
+				}
+				return evalJobs(prop, fam(tier), dq, wq, 1, keysQ)
+			},
+			Bounds: func(tier string) map[string]interface{} {
+				if tier == "thorough" {
+					return evalBounds(tier, famName, len(fam(tier)), dt, wt, 2, append(keysQ, "é"))
+				}
+				return evalBounds(tier, famName, len(fam(tier)), dq, wq, 1, keysQ)
+			},
+			Assumptions: commonAssumptions, Outside: outside, Explain: explain,
+		}
+	}
+	mk2 := func(prop string, fam func(string) []tmpl, famName string, dq, wq, dt, wt int, explain string, outside []string) {
+		mk(prop, fam, famName, dq, wq, dt, wt, explain, outside)
+		sp := specs[prop]
+		sp.Jobs = func(tier string) []*Job {
+			if tier == "thorough" {
+				return evalJobs(prop, fam(tier), dt, wt, 2, keysQ)
+			}
+			return evalJobs(prop, fam(tier), dq, wq, 1, []string{"a", "b"})
+		}
+		sp.Bounds = func(tier string) map[string]interface{} {
+			if tier == "thorough" {
+				return evalBounds(tier, famName, len(fam(tier)), dt, wt, 2, keysQ)
+			}
+			return evalBounds(tier, famName, len(fam(tier)), dq, wq, 1, []string{"a", "b"})
+		}
+	}
+	outs := []string{"expressions outside the enumerated template family (only their integers and the documents are solver variables)",
+		"documents deeper / arrays longer / strings longer than the bounds", "Go-struct documents (C18)"}
+	mk("C01", familyCore, "CORE", 2, 2, 3, 3, "public Search on core-fragment templates vs. the specification evaluator, for every document and index in the bounds", outs)
+	mk2("C02", familyProj, "PROJ", 2, 2, 3, 2, "public Search on projection templates vs. the specification evaluator (object wildcards compared as multisets, every member order explored)", outs)
+	mk("C07", familyBool, "BOOL", 2, 2, 2, 2, "truthiness, logical operators and comparators vs. the specification, all finite doubles and strings in bounds", outs)
+}
+
+func cmdTemplates(args []string) {
+	fams := map[string]func(string) []tmpl{"core": familyCore, "proj": familyProj, "bool": familyBool, "prec": familyPrec}
+	tier := "quick"
+	if len(args) > 1 {
+		tier = args[1]
+	}
+	ts := fams[args[0]](tier)
+	for _, t := range ts {
+		println(t.text, "  =>  ", t.spec, " mode", t.mode, "ints", t.ints)
+	}
+	println(len(ts), "templates")
+}
